@@ -80,6 +80,11 @@ def _walk_values(t):
         stack.extend(x.args)
 
 
+# Option methods under which Some stays Some with the same content (by reference, by copy, or mapped)
+OPTION_KEEPS = {'as_ref', 'as_mut', 'as_deref', 'as_deref_mut', 'as_slice', 'map', 'cloned', 'copied', 'clone', 'iter', 'into_iter', 'unwrap', 'expect',
+                'unwrap_or_default', 'is_some', 'is_none', 'ok_or', 'ok_or_else', 'inspect', 'from', 'into', 'deref'}
+
+
 def positional_fill(ctx, rep, d, n):
     """Witness bytes written positionally (`buf[a..b].copy_from_slice(x)` inside loops over the openings / blinding factors) instead of
     appended: every iteration must write its own bytes.  Decided on the offset terms: (1) the offset of a write depends on the index of
@@ -258,6 +263,13 @@ def run(ctx):
                           'a fill loop of the witness bytes pairs the secret source with slots of a different count (%s): part of the witness may be left out of the RNG key' % why,
                           ctx.where(eb, ebb))
         positional_fill(ctx, rep, d, n)
+        # .. on every path: the optional bytes the wrapper was built with are the ones every rebuild uses; an Option method that can turn
+        # Some into None (`filter`, `take`, `and`, `xor`, `and_then` ..) between the two makes some rebuilds un-keyed for the prover
+        narrowing = sorted({x[1].split('::')[-1] for x in walk(d) if x.tag == 'call' and x[1].startswith('std::option::Option') and
+                            x[1].split('::')[-1] not in OPTION_KEEPS})
+        rep.check(not narrowing, 'R-C14-2', key + '/unconditional', 'the witness bytes reach rekey #%d as they were stored (no Option method that can drop them)' % n,
+                  'the witness bytes reach rekey #%d through Option::%s: for some statements this rebuild of the RNG is not keyed by the witness' % (n, ', Option::'.join(narrowing)),
+                  ctx.where(e.body, e.bb))
         rep.check(lab == wire.WITNESS_LABEL and okv and okr and r_each and no_adapt, 'R-C14-2', key,
                   'rekey #%d uses label %r and bytes containing every opening\'s value and every blinding factor' % (n, lab),
                   'rekey #%d: label %r, value covered: %s, blinding factors covered: %s (element-wise: %s); data = %s' % (n, lab, okv, okr, r_each and no_adapt, short(d, 200)) + (' through %s' % ctx.adapters(d) if not no_adapt else ''),
